@@ -241,12 +241,244 @@ theorem bdRange_spec (file : TFile) (r : Reader) (Req : Hist) (h : RInv file r R
       · by_cases c2 : overlapsTimeRange r.ix lo hi = true
         · simp only [c1, c2, Bool.not_true, Bool.false_eq_true, if_false]
           obtain ⟨p1, p2⟩ := tAddRange_none file r.ts (containsKey r.ix) keys lo hi h.nopend
-          refine ⟨keys.filter (containsKey r.ix), rfl, p2, p1, fun k hk => (List.mem_filter.mp hk).1, ?_⟩
+          refine ⟨keys.filter (containsKey r.ix), trivial, p2, p1, fun k hk => (List.mem_filter.mp hk).1, ?_⟩
           intro q hq hmq
           exact List.mem_filter.mpr ⟨(mem_reqs.mp hq).1, (hm q hq hmq).2.2⟩
         · simp only [c1, c2, Bool.not_true, Bool.false_eq_true, if_false, Bool.not_false, if_true]
-          exact ⟨[], rfl, rfl, by simp [h.nopend], by simp, fun q hq hmq => absurd (hm q hq hmq).2.1 c2⟩
+          exact ⟨[], trivial, trivial, by simp [h.nopend], by simp, fun q hq hmq => absurd (hm q hq hmq).2.1 c2⟩
       · simp only [c1, Bool.not_false, if_true]
-        exact ⟨[], rfl, rfl, by simp [h.nopend], by simp, fun q hq hmq => absurd (hm q hq hmq).1 c1⟩
+        exact ⟨[], trivial, trivial, by simp [h.nopend], by simp, fun q hq hmq => absurd (hm q hq hmq).1 c1⟩
+
+
+theorem tWalk_sub (f : TFile) (o : TObj) : ∀ t ∈ (tWalk f o).1, t ∈ fileTombs f := by
+  unfold tWalk fileTombs
+  cases f with
+  | none => simp
+  | some ms =>
+    simp only [Option.getD_some]
+    split
+    · simp
+    · intro t ht
+      obtain ⟨m, hm, htm⟩ := List.mem_flatten.mp ht
+      exact List.mem_flatten.mpr ⟨m, List.mem_of_mem_drop hm, htm⟩
+
+theorem tWalk_pending (f : TFile) (o : TObj) : (tWalk f o).2.pending = o.pending := by
+  unfold tWalk; split <;> (try split) <;> rfl
+
+theorem tWalk_applied (f : TFile) (o : TObj) (h : o.lastApplied ≤ (f.getD []).length) :
+    (tWalk f o).2.lastApplied ≤ (f.getD []).length := by
+  unfold tWalk
+  cases f with
+  | none => simpa using h
+  | some ms =>
+    simp only [Option.getD_some] at h ⊢
+    split
+    · exact h
+    · simp
+
+theorem tWalk_last (pre : List (List Tombstone)) (m : List Tombstone) (o : TObj) (h : o.lastApplied ≤ pre.length) :
+    ∀ t ∈ m, t ∈ (tWalk (some (pre ++ [m])) o).1 := by
+  intro t ht
+  unfold tWalk
+  simp only
+  rw [if_neg (by simp; omega)]
+  simp only
+  apply List.mem_flatten.mpr
+  refine ⟨m, ?_, ht⟩
+  rw [List.drop_append_of_le_length h]
+  simp
+
+/-- committing a batch whose recorded keys are `rec` (every request that matters among `NewReq`) -/
+theorem commit_inv (file : TFile) (r : Reader) (Req : Hist) (h : RInv file r Req) (r1 : Reader)
+    (rec : List Key) (lo hi : Int) (NewReq : Hist)
+    (hix : r1.ix = r.ix) (hla : r1.ts.lastApplied = r.ts.lastApplied)
+    (hp : r1.ts.pending = if rec.isEmpty then none else some ⟨file.getD [], rec.map fun k => ⟨k, lo, hi⟩⟩)
+    (hsub : ∀ k ∈ rec, (k, lo, hi) ∈ NewReq)
+    (hmat : ∀ q ∈ NewReq, matters r.ix.all q → q.1 ∈ rec ∧ q.2.1 = lo ∧ q.2.2 = hi) :
+    RInv (bdCommit file r1).1 (bdCommit file r1).2 (Req ++ NewReq) ∧ (bdCommit file r1).2.ix.all = r.ix.all := by
+  obtain ⟨H, hT, hHsub, hHmat⟩ := h.idx
+  unfold bdCommit
+  by_cases hrec : rec.isEmpty = true
+  · -- nothing recorded: the file is unchanged
+    have hpn : r1.ts.pending = none := by rw [hp]; simp [hrec]
+    simp only [tFlush, hpn, applyTombstones_eq, hix]
+    have hall : (applyWalked r.ix (tWalk file r1.ts).1).all = r.ix.all := applyWalked_all _ _
+    obtain ⟨H', hT', hset⟩ := applyWalked_inv r.ix H hT (tWalk file r1.ts).1
+    refine ⟨⟨by rw [tWalk_pending]; exact hpn, tWalk_applied _ _ (by rw [hla]; exact h.applied), ⟨H', hT', ?_, ?_⟩, ?_, ?_⟩, hall⟩
+    · intro q hq
+      rcases (hset q).mp hq with h' | h'
+      · exact List.mem_append_left _ (hHsub q h')
+      · obtain ⟨t, ht, rfl⟩ := List.mem_map.mp h'
+        exact List.mem_append_left _ (h.fileSub _ (List.mem_map_of_mem (tWalk_sub _ _ t ht)))
+    · intro q hq hm
+      simp only [hall] at hm
+      rcases List.mem_append.mp hq with hq | hq
+      · exact (hset q).mpr (Or.inl (hHmat q hq hm))
+      · have := (hmat q hq hm).1
+        have : rec = [] := List.isEmpty_iff.mp hrec
+        simp_all
+    · intro q hq; exact List.mem_append_left _ (h.fileSub q hq)
+    · intro q hq hm
+      simp only [hall] at hm
+      rcases List.mem_append.mp hq with hq | hq
+      · exact h.filePersist q hq hm
+      · have := (hmat q hq hm).1
+        have : rec = [] := List.isEmpty_iff.mp hrec
+        simp_all
+  · -- one member is appended to the file and applied
+    have hps : r1.ts.pending = some ⟨file.getD [], rec.map fun k => ⟨k, lo, hi⟩⟩ := by rw [hp]; simp [hrec]
+    simp only [tFlush, hps, applyTombstones_eq, hix]
+    generalize hm : (rec.map fun k => (⟨k, lo, hi⟩ : Tombstone)) = m
+    have hall : (applyWalked r.ix (tWalk (some (file.getD [] ++ [m])) { r1.ts with pending := none }).1).all = r.ix.all :=
+      applyWalked_all _ _
+    obtain ⟨H', hT', hset⟩ := applyWalked_inv r.ix H hT (tWalk (some (file.getD [] ++ [m])) { r1.ts with pending := none }).1
+    have hfile' : ∀ q, q ∈ fileReqs (some (file.getD [] ++ [m])) ↔ (q ∈ fileReqs file ∨ q ∈ reqs rec lo hi) := by
+      intro q
+      simp only [fileReqs, fileTombs, Option.getD_some, List.flatten_append, List.flatten_cons, List.flatten_nil,
+        List.append_nil, List.map_append, List.mem_append]
+      rw [← hm]
+      simp [reqs, toReq, Function.comp_def]
+    have hrecNew : ∀ q ∈ reqs rec lo hi, q ∈ NewReq := by
+      intro q hq
+      obtain ⟨a, b, c⟩ := q
+      obtain ⟨h1, h2, h3⟩ := mem_reqs.mp hq
+      simp only at h1 h2 h3; subst h2; subst h3
+      exact hsub a h1
+    refine ⟨⟨by rw [tWalk_pending], ?_, ⟨H', hT', ?_, ?_⟩, ?_, ?_⟩, hall⟩
+    · apply tWalk_applied
+      simp only [Option.getD_some, List.length_append, List.length_cons, List.length_nil]
+      have := h.applied
+      rw [hla]; omega
+    · intro q hq
+      rcases (hset q).mp hq with h' | h'
+      · exact List.mem_append_left _ (hHsub q h')
+      · obtain ⟨t, ht, rfl⟩ := List.mem_map.mp h'
+        have := (hfile' (toReq t)).mp (List.mem_map_of_mem (tWalk_sub _ _ t ht))
+        rcases this with h1 | h1
+        · exact List.mem_append_left _ (h.fileSub _ h1)
+        · exact List.mem_append_right _ (hrecNew _ h1)
+    · intro q hq hmq
+      simp only [hall] at hmq
+      rcases List.mem_append.mp hq with hq | hq
+      · exact (hset q).mpr (Or.inl (hHmat q hq hmq))
+      · obtain ⟨h1, h2, h3⟩ := hmat q hq hmq
+        apply (hset q).mpr
+        right
+        have hin : (⟨q.1, lo, hi⟩ : Tombstone) ∈ m := by
+          rw [← hm]; exact List.mem_map_of_mem h1
+        have := tWalk_last (file.getD []) m { r1.ts with pending := none } (by simp [hla]; exact h.applied) _ hin
+        have hq' : q = toReq ⟨q.1, lo, hi⟩ := by
+          obtain ⟨a, b, c⟩ := q
+          simp only at h2 h3; subst h2; subst h3; rfl
+        rw [hq']
+        exact List.mem_map_of_mem this
+    · intro q hq
+      rcases (hfile' q).mp hq with h1 | h1
+      · exact List.mem_append_left _ (h.fileSub q h1)
+      · exact List.mem_append_right _ (hrecNew q h1)
+    · intro q hq hmq
+      simp only [hall] at hmq
+      apply (hfile' q).mpr
+      rcases List.mem_append.mp hq with hq | hq
+      · exact Or.inl (h.filePersist q hq hmq)
+      · obtain ⟨h1, h2, h3⟩ := hmat q hq hmq
+        right
+        obtain ⟨a, b, c⟩ := q
+        simp only at h1 h2 h3; subst h2; subst h3
+        exact mem_reqs.mpr ⟨h1, rfl, rfl⟩
+
+/-- **`TSMReader.DeleteRange(keys, lo, hi)`** (sorted keys) keeps the reader invariant with the
+    requests (k, lo, hi), k ∈ keys, acknowledged. -/
+theorem rDeleteRange_inv (file : TFile) (r : Reader) (Req : Hist) (h : RInv file r Req) (keys : List Key)
+    (hsk : SortedK keys) (lo hi : Int) :
+    RInv (rDeleteRange file r keys lo hi).1 (rDeleteRange file r keys lo hi).2 (Req ++ reqs keys lo hi) ∧
+    (rDeleteRange file r keys lo hi).2.ix.all = r.ix.all := by
+  unfold rDeleteRange
+  by_cases hk : keys.isEmpty = true
+  · have : keys = [] := List.isEmpty_iff.mp hk
+    subst this
+    simpa [reqs] using h
+  · simp only [hk, Bool.false_eq_true, if_false]
+    have hne : keys ≠ [] := by intro e; rw [e] at hk; simp at hk
+    obtain ⟨rec, h1, h2, h3, h4, h5⟩ := bdRange_spec file r Req h keys hne hsk lo hi
+    exact commit_inv file r Req h _ rec lo hi (reqs keys lo hi) h1 h2 h3
+      (fun k hk' => mem_reqs.mpr ⟨h4 k hk', rfl, rfl⟩)
+      (fun q hq hm => ⟨h5 q hq hm, (mem_reqs.mp hq).2.1, (mem_reqs.mp hq).2.2⟩)
+
+
+/-- **`TSMReader.Delete(keys)`** keeps the reader invariant with (k, MinInt64, MaxInt64), k ∈ keys. -/
+theorem rDelete_inv (file : TFile) (r : Reader) (Req : Hist) (h : RInv file r Req) (keys : List Key) :
+    RInv (rDelete file r keys).1 (rDelete file r keys).2 (Req ++ reqs keys minInt64 maxInt64) ∧
+    (rDelete file r keys).2.ix.all = r.ix.all := by
+  obtain ⟨H, hT, hHsub, hHmat⟩ := h.idx
+  obtain ⟨p1, p2⟩ := tAddRange_none file r.ts (containsKey r.ix) keys minInt64 maxInt64 h.nopend
+  have hall : (delete r.ix keys).all = r.ix.all := (delete_fields r.ix keys).2.1
+  have hT' := TInv_delete r.ix H hT keys
+  unfold rDelete
+  simp only
+  by_cases hrec : (keys.filter (containsKey r.ix)).isEmpty = true
+  · have hpn : (tAddRange file r.ts (some (containsKey r.ix)) keys minInt64 maxInt64).pending = none := by
+      rw [p1]; simp [hrec]
+    simp only [tFlush, hpn]
+    have hnone : ∀ q ∈ reqs keys minInt64 maxInt64, ¬ matters r.ix.all q := by
+      intro q hq ⟨ke, hke, hkk, _⟩
+      have : q.1 ∈ keys.filter (containsKey r.ix) :=
+        List.mem_filter.mpr ⟨(mem_reqs.mp hq).1, by rw [← hkk]; exact containsKey_all hT.inv hke⟩
+      have he : keys.filter (containsKey r.ix) = [] := List.isEmpty_iff.mp hrec
+      rw [he] at this; cases this
+    refine ⟨⟨hpn, by rw [p2]; exact h.applied, ⟨_, hT', ?_, ?_⟩, ?_, ?_⟩, hall⟩
+    · intro q hq
+      rcases List.mem_append.mp hq with h' | h'
+      · exact List.mem_append_left _ (hHsub q h')
+      · exact List.mem_append_right _ h'
+    · intro q hq hm
+      simp only [hall] at hm
+      rcases List.mem_append.mp hq with h' | h'
+      · exact List.mem_append_left _ (hHmat q h' hm)
+      · exact List.mem_append_right _ h'
+    · intro q hq; exact List.mem_append_left _ (h.fileSub q hq)
+    · intro q hq hm
+      simp only [hall] at hm
+      rcases List.mem_append.mp hq with h' | h'
+      · exact h.filePersist q h' hm
+      · exact absurd hm (hnone q h')
+  · have hps : (tAddRange file r.ts (some (containsKey r.ix)) keys minInt64 maxInt64).pending =
+        some ⟨file.getD [], (keys.filter (containsKey r.ix)).map fun k => ⟨k, minInt64, maxInt64⟩⟩ := by
+      rw [p1]; simp [hrec]
+    simp only [tFlush, hps]
+    have hfile' : ∀ q, q ∈ fileReqs (some (file.getD [] ++
+        [(keys.filter (containsKey r.ix)).map fun k => (⟨k, minInt64, maxInt64⟩ : Tombstone)])) ↔
+        (q ∈ fileReqs file ∨ q ∈ reqs (keys.filter (containsKey r.ix)) minInt64 maxInt64) := by
+      intro q
+      simp only [fileReqs, fileTombs, Option.getD_some, List.flatten_append, List.flatten_cons, List.flatten_nil,
+        List.append_nil, List.map_append, List.mem_append]
+      simp [reqs, toReq, Function.comp_def]
+    refine ⟨⟨rfl, ?_, ⟨_, hT', ?_, ?_⟩, ?_, ?_⟩, hall⟩
+    · simp only [Option.getD_some, List.length_append, List.length_cons, List.length_nil]
+      rw [p2]; have := h.applied; omega
+    · intro q hq
+      rcases List.mem_append.mp hq with h' | h'
+      · exact List.mem_append_left _ (hHsub q h')
+      · exact List.mem_append_right _ h'
+    · intro q hq hm
+      simp only [hall] at hm
+      rcases List.mem_append.mp hq with h' | h'
+      · exact List.mem_append_left _ (hHmat q h' hm)
+      · exact List.mem_append_right _ h'
+    · intro q hq
+      rcases (hfile' q).mp hq with h' | h'
+      · exact List.mem_append_left _ (h.fileSub q h')
+      · apply List.mem_append_right
+        obtain ⟨h1, h2, h3⟩ := mem_reqs.mp h'
+        exact mem_reqs.mpr ⟨(List.mem_filter.mp h1).1, h2, h3⟩
+    · intro q hq hm
+      simp only [hall] at hm
+      apply (hfile' q).mpr
+      rcases List.mem_append.mp hq with h' | h'
+      · exact Or.inl (h.filePersist q h' hm)
+      · right
+        obtain ⟨ke, hke, hkk, _⟩ := hm
+        obtain ⟨h1, h2, h3⟩ := mem_reqs.mp h'
+        exact mem_reqs.mpr ⟨List.mem_filter.mpr ⟨h1, by rw [← hkk]; exact containsKey_all hT.inv hke⟩, h2, h3⟩
 
 end Influx.Tsm
